@@ -8,7 +8,7 @@ RULES = {
     "G5": order.rule_G5,
     "G6": order.rule_G6,
     "G7": order.rule_G7,
-    "G8": order.rule_G8, "G9": order.rule_G9,
+    "G8": order.rule_G8, "G9": order.rule_G9, "G10": order.rule_G10, "G11": order.rule_G11,
     "D1": effects.rule_D1,
     "D2": effects.rule_D2,
     "D3": effects.rule_D3,
@@ -25,7 +25,7 @@ RULES = {
     "A5": coord.rule_A5, "A6": coord.rule_A6, "A7": coord.rule_A7, "A8": coord.rule_A8, "A9": coord.rule_A9, "A10": coord.rule_A10, "A11": coord.rule_A11,
     "F1": tables.rule_F1, "F2": tables.rule_F2, "F3": tables.rule_F3, "F4": tables.rule_F4, "F5": tables.rule_F5,
     "F6": tables.rule_F6, "F7": tables.rule_F7, "F8": tables.rule_F8, "F9": tables.rule_F9, "F10": tables.rule_F10, "F11": tables.rule_F11, "F12": tables.rule_F12, "F13": tables.rule_F13, "F14": tables.rule_F14,
-    "F15": tables.rule_F15, "F16": tables.rule_F16, "F17": tables.rule_F17, "F18": tables.rule_F18, "F19": tables.rule_F19, "F20": tables.rule_F20, "F21": tables.rule_F21, "F22": tables.rule_F22, "F23": tables.rule_F23, "F24": tables.rule_F24, "F25": tables.rule_F25, "F26": tables.rule_F26, "F27": tables.rule_F27, "F28": tables.rule_F28, "F29": tables.rule_F29, "F30": tables.rule_F30, "F31": tables.rule_F31, "F32": tables.rule_F32,
+    "F15": tables.rule_F15, "F16": tables.rule_F16, "F17": tables.rule_F17, "F18": tables.rule_F18, "F19": tables.rule_F19, "F20": tables.rule_F20, "F21": tables.rule_F21, "F22": tables.rule_F22, "F23": tables.rule_F23, "F24": tables.rule_F24, "F25": tables.rule_F25, "F26": tables.rule_F26, "F27": tables.rule_F27, "F28": tables.rule_F28, "F29": tables.rule_F29, "F30": tables.rule_F30, "F31": tables.rule_F31, "F32": tables.rule_F32, "F33": tables.rule_F33, "F34": tables.rule_F34,
     "C1": deadline.rule_C1,
     "C2": deadline.rule_C2,
     "C3": deadline.rule_C3,
